@@ -23,6 +23,11 @@ NONASCII = ["\u00e9", "na\u00efve"]
 INTS = [1, 1, 2, 0]
 FLOATS = [1.5]
 ANCHORS = ["A", "B", "anc"]
+SPECIAL_KEYS = ["a: b", "h#h", 'q"q', " lead", "back\\slash", "it's", "[br]",
+                "{cu}", "pct%", "dollar$", "star*", "amp&er", "e=q"]
+SPECIAL_STRS = ["a: b", "#hash", " lead", 'q"q', "back\\slash", "trail ",
+                "it's", "- dash", "? q", "@at", "`tick", "!bang", "%pct",
+                "x: y: z", "\u00e9\u00e8", "tab\there"]
 
 _PLAIN_OK = re.compile(
     r"^[A-Za-z\u00e9\u00ef_][A-Za-z0-9_\u00e9\u00ef./-]*"
@@ -59,7 +64,8 @@ class DocGen:
 
     def __init__(self, rng, *, sets=True, anchors=True, nonascii=False,
                  max_nodes=20, max_depth=4, floats=True, multiline=False,
-                 empty_containers=True, mergekeys=False, twins=0.0):
+                 empty_containers=True, mergekeys=False, twins=0.0,
+                 special=False):
         self.rng = rng
         self.sets = sets
         self.anchors = anchors
@@ -71,6 +77,7 @@ class DocGen:
         self.empty_containers = empty_containers
         self.mergekeys = mergekeys
         self.twins = twins
+        self.special = special
         self.budget = max_nodes
         self.defined = []       # scalar anchors defined so far (doc order)
         self.map_anchors = []   # map anchors (merge-key sources)
@@ -84,6 +91,8 @@ class DocGen:
         if strings_only or roll < 0.55:
             pool = STRS + (NONASCII if self.nonascii else [])
             value = rng.choice(pool)
+            if self.special and rng.random() < 0.35:
+                value = rng.choice(SPECIAL_STRS)
         elif roll < 0.75:
             value = rng.choice(INTS)
         elif roll < 0.83:
@@ -132,6 +141,10 @@ class DocGen:
         count = rng.choice([0, 1, 2, 2, 3, 3, 4]) if self.empty_containers \
             else rng.choice([1, 2, 2, 3, 3, 4])
         keys = rng.sample(KEYS, min(count, len(KEYS)))
+        if self.special:
+            keys = [rng.choice(SPECIAL_KEYS) if rng.random() < 0.3 else k
+                    for k in keys]
+            keys = list(dict.fromkeys(keys))
         merge = None
         if self.mergekeys and depth > 0 and self.map_anchors \
                 and rng.random() < 0.35:
